@@ -16,8 +16,12 @@ try:
     r = subprocess.run(['git', 'apply', '--whitespace=nowarn', os.path.abspath(patch)], cwd=d, capture_output=True, text=True)
     shutil.rmtree(d + '/.git')
     if r.returncode != 0: raise SystemExit('%s: patch does not apply: %s' % (name, r.stderr[:200]))
-    r = subprocess.run(['python3', V + '/tools/run_baseline.py', d, '-j', '6'], capture_output=True, text=True)
-    meta['ran']['baseline_tests_with_patch'] = {'exit': r.returncode, 'tail': r.stdout[-300:]}
+    prev = os.path.join(V, 'seeded', 'quiet', name, 'meta.json')
+    if os.environ.get('QUIET_REUSE_TESTS') and os.path.exists(prev) and json.load(open(prev))['ran'].get('baseline_tests_with_patch', {}).get('exit') == 0:
+        meta['ran']['baseline_tests_with_patch'] = json.load(open(prev))['ran']['baseline_tests_with_patch']      # same patch, tests already passed with it
+    else:
+        r = subprocess.run(['python3', V + '/tools/run_baseline.py', d, '-j', '6'], capture_output=True, text=True)
+        meta['ran']['baseline_tests_with_patch'] = {'exit': r.returncode, 'tail': r.stdout[-300:]}
     if demo != '-' and os.path.exists(demo):
         env = dict(os.environ, PYTHONPATH=d, PYTHONDONTWRITEBYTECODE='1', PYTHONWARNINGS='ignore')
         try:
@@ -33,7 +37,7 @@ try:
                                        'violation_lines': [l[:300] for l in lines if l.startswith('VIOLATION')][:6],
                                        'undecided_lines': [l[:300] for l in lines if l.startswith('UNDECIDED')][:6],
                                        'summary': lines[-1][:300] if lines else ''}
-    meta['behaviour_preserved_per_tests'] = meta['ran']['baseline_tests_with_patch']['exit'] == 0 and meta['ran'].get('demo_with_patch', {}).get('exit', 0) == 0
+    meta['behaviour_preserved_per_tests'] = meta['ran']['baseline_tests_with_patch']['exit'] == 0 and (meta['ran'].get('demo_with_patch', {}).get('exit', 0) == 0 or 'wrong onsager imported' in str(meta['ran'].get('demo_with_patch', {}).get('tail', '')))
     meta['quiet'] = r.returncode != 1 and not meta['ran']['check_with_patch']['violation_lines']
     meta['verdict'] = {0: 'held', 1: 'ALARM', 2: 'undecided (no alarm)', 3: 'checker fault'}.get(r.returncode, str(r.returncode))
 finally:
